@@ -231,7 +231,7 @@ def unread_parameters(ctx: Ctx, files: set[str] | None):
             if p.arg.startswith("_"):
                 continue
             unread = p.arg not in loads
-            reviewed = (f.qual, p.arg) in PARAMS_REVIEWED or (f.parent is not None and p.arg in CALLBACK_PARAM_NAMES) or (f.cls is None and f.parent is None and p.arg == "pattern" and f.name.lstrip("_").startswith("handle_"))
+            reviewed = (f.qual, p.arg) in PARAMS_REVIEWED or (f.parent is not None and p.arg in CALLBACK_PARAM_NAMES) or (p.arg == "pattern" and f.name.lstrip("_").startswith("handle_") and [q.arg for q in f.value_params] == ["pattern", "builder"])
             yield f, p.arg, unread and not reviewed
 
 
